@@ -43,12 +43,13 @@ type failOp struct {
 	StrLimit   int
 	BytesLimit int
 	Overflow   bool   // frame-overflow template (trace repeats the recursing statement)
-	Finding    string // open finding this operation reproduces ("" = none)
+	Finding    string // finding this operation reproduces ("" = none); excluded only while its switch in openFindings is on
 }
 
 var sentinels = map[string]error{
 	"ErrObjectAllocLimit": tengo.ErrObjectAllocLimit,
 	"ErrStackOverflow":    tengo.ErrStackOverflow,
+	"ErrDivisionByZero":   tengo.ErrDivisionByZero,
 	"ErrIndexOutOfBounds": tengo.ErrIndexOutOfBounds,
 	"ErrStringLimit":      tengo.ErrStringLimit,
 	"ErrBytesLimit":       tengo.ErrBytesLimit,
@@ -464,8 +465,9 @@ func init() {
 
 	// --- frame overflow: deep non-tail recursion of a distinct function r.
 	// The recursing statement pushes the callee first and r has no locals, so
-	// every frame costs one operand slot (see FINDINGS.md: with more than one
-	// slot per frame the operand stack is exhausted before MaxFrames).
+	// every frame costs one operand slot and MaxFrames is reached first (with
+	// more than one slot per frame the operand stack is exhausted before
+	// MaxFrames: group frame-overflow-wide below).
 	for i, rec := range []string{"return [$r(),\n\t\t1]", "return $r() + 1", "return $r()[0]", "return (-$r())",
 		"return $r() ?\n\t\t1 :\n\t\t2", "if $r() {\n\t\treturn 1\n\t}", "return error($r())", "return immutable([$r()])"} {
 		tail := ""
@@ -477,21 +479,34 @@ func init() {
 			Expr:  "$r()",
 			MsgRe: "^stack overflow$", Sentinel: "ErrStackOverflow", Overflow: true})
 	}
-	// the same with two or more operand slots per frame: open finding
-	for i, rec := range []string{"return 1 + $r($n + 1)", "return [1,\n\t\t$r($n)]", "return len($r($n))"} {
+	// the same with two or more operand slots per frame (parameters, locals,
+	// pending operands under the call): the 2048-slot operand stack is
+	// exhausted before MaxFrames; reported as ErrStackOverflow since 8f34add
+	// (was finding C14-operand-stack-overflow). The push that runs past the
+	// end can belong to the recursing statement or to the counter statement
+	// ⟦ ⟧ of the newest call; the oracle tells the two apart (payload Tick).
+	for i, w := range []struct{ rec, tail string }{
+		{"return 1 + $r($n + 1)", ""},
+		{"return [1,\n\t\t$r($n)]", ""},
+		{"return len($r($n))", ""},
+		{"$m := $r($n + 1)", "\n\treturn $m"},
+		{"return {a: $n, b: [$n, $r($n +\n\t\t1)]}", ""},
+		{"if $m := [$n, $r($n)]; $m {\n\t\treturn $m\n\t}", "\n\treturn 0"},
+	} {
 		call := "$r(1)"
 		addOp(failOp{Group: "frame-overflow-wide", Name: fmt.Sprintf("frame-overflow-wide:%d", i),
-			Vars:  []varDef{{Name: "r", Init: "func($n) {\n\t@tick()\n\t«" + rec + "»\n}", NoInline: true}},
+			Vars:  []varDef{{Name: "r", Init: "func($n) {\n\t⟦@tick()⟧\n\t«" + w.rec + "»" + w.tail + "\n}", NoInline: true}},
 			Expr:  call,
 			MsgRe: "^stack overflow$", Sentinel: "ErrStackOverflow", Overflow: true, Finding: findingOpStack})
 	}
 
-	// --- integer division / modulo by zero: open finding F17
-	dz := "(?i)divi[ds]" // whatever a repair words it like: "division by zero", "divide by zero"
-	addOp(failOp{Group: "div-zero", Name: "div-zero:/0", Vars: []varDef{{Name: "a", Init: "7"}}, Expr: "($a / 0)", MsgRe: dz, Finding: findingDivZero})
-	addOp(failOp{Group: "div-zero", Name: "div-zero:%0", Vars: []varDef{{Name: "a", Init: "7"}}, Expr: "($a % 0)", MsgRe: dz, Finding: findingDivZero})
-	addOp(failOp{Group: "div-zero", Name: "div-zero:/z", Vars: []varDef{{Name: "a", Init: "7"}, {Name: "z", Init: "0", NoInline: true}}, Expr: "($a /\n\t$z)", MsgRe: dz, Finding: findingDivZero})
-	addOp(failOp{Group: "div-zero", Name: "div-zero:/=", Vars: []varDef{{Name: "a", Init: "7", NoInline: true}}, Stmt: []string{"$a /= 0", "$a %=\n\t0"}, MsgRe: dz, Finding: findingDivZero})
+	// --- integer division / modulo by zero: tengo.ErrDivisionByZero, located
+	// like any operator error since 342098c (was finding F17)
+	dz := "^integer division by zero$"
+	addOp(failOp{Group: "div-zero", Name: "div-zero:/0", Vars: []varDef{{Name: "a", Init: "7"}}, Expr: "($a / 0)", MsgRe: dz, Sentinel: "ErrDivisionByZero", Finding: findingDivZero})
+	addOp(failOp{Group: "div-zero", Name: "div-zero:%0", Vars: []varDef{{Name: "a", Init: "7"}}, Expr: "($a % 0)", MsgRe: dz, Sentinel: "ErrDivisionByZero", Finding: findingDivZero})
+	addOp(failOp{Group: "div-zero", Name: "div-zero:/z", Vars: []varDef{{Name: "a", Init: "7"}, {Name: "z", Init: "0", NoInline: true}}, Expr: "($a /\n\t$z)", MsgRe: dz, Sentinel: "ErrDivisionByZero", Finding: findingDivZero})
+	addOp(failOp{Group: "div-zero", Name: "div-zero:/=", Vars: []varDef{{Name: "a", Init: "7", NoInline: true}}, Stmt: []string{"$a /= 0", "$a %=\n\t0"}, MsgRe: dz, Sentinel: "ErrDivisionByZero", Finding: findingDivZero})
 
 	for g := range opsByGroup {
 		groupNames = append(groupNames, g)
@@ -510,7 +525,9 @@ const (
 // openFindings: genuine defects of the tree under test (FINDINGS.md). While a
 // switch is on, the generator never emits that pattern (counted as a discard
 // "known:<id>") and TestKnownFindings reports it from its committed replay.
+// Both findings are repaired in /repo (342098c, 8f34add): switches off, the
+// patterns are generated and judged, replays under replays/C14/fixed.
 var openFindings = map[string]bool{
-	findingDivZero: true,
-	findingOpStack: true,
+	findingDivZero: false,
+	findingOpStack: false,
 }
